@@ -124,9 +124,9 @@ func kindOf(f []string) string {
 
 func parseDesc(s string) bool {
 	switch s {
-	case "asc":
+	case "asc", "asc2":
 		return false
-	case "desc", "default":
+	case "desc", "default", "desc2":
 		return true
 	}
 	panic("bad direction " + s)
@@ -570,6 +570,10 @@ func newTPQ(f []string) world {
 		q = timed.NewPriorityQueue[int]()
 	case "asc":
 		q = timed.NewPriorityQueue[int](true)
+	case "asc2": // only the first optional argument counts
+		q = timed.NewPriorityQueue[int](true, false)
+	case "desc2":
+		q = timed.NewPriorityQueue[int](false, true)
 	default:
 		q = timed.NewPriorityQueue[int](false)
 	}
@@ -748,7 +752,7 @@ func (w *pqW) exec(r *hx.Run, f []string) (string, string) {
 func genPQ(name string, rng *hx.Rng, n int) []string {
 	dirs := []string{"asc", "desc"}
 	if name == "tpq" {
-		dirs = append(dirs, "default")
+		dirs = append(dirs, "default", "asc2", "desc2")
 	}
 	head := name + " new " + hx.Pick(rng, dirs)
 	kind, spread := "unit", 1
